@@ -12,6 +12,32 @@ QUICK_LIMITS = (None, 3)
 THOROUGH_LIMITS = (None, 1, 2, 3, 8, 64, 2048)
 
 
+def _size_facts(st, S):
+    """(eq, lo, hi, excluded) known about the stack size term S on this path; facts recorded on S + c are translated
+    (sizes are far below 2^64 - c by the who-may-write invariant, so no wrap is involved)"""
+    if S is None:
+        return None, 0, (1 << 64) - 1, set()
+    eq = st.eqc.get(S)
+    lo, hi = st.lo.get(S, 0), st.hi.get(S, (1 << 64) - 1)
+    exc = set(st.nec.get(S, ()))
+    for t in list(st.lo) + list(st.hi) + list(st.eqc) + list(st.nec):
+        if isinstance(t, tuple) and t[0] == "op" and t[1] == "add" and S in (t[3], t[4]):
+            c = t[4] if t[3] == S else t[3]
+            if not P.is_const(c):
+                continue
+            c = c[1]
+            if t in st.eqc and st.eqc[t] >= c:
+                eq = st.eqc[t] - c
+            if t in st.lo:
+                lo = max(lo, st.lo[t] - c)
+            if t in st.hi and st.hi[t] >= c:
+                hi = min(hi, st.hi[t] - c)
+            for v in st.nec.get(t, ()):
+                if v >= c:
+                    exc.add(v - c)
+    return eq, lo, hi, exc
+
+
 def check_gate(chk, prog, eff, L, label, rule="C19.gate"):
     f = prog.fn("_cbor_stack_push")
     where = "%s:%d" % (f.file, f.line)
@@ -31,12 +57,13 @@ def check_gate(chk, prog, eff, L, label, rule="C19.gate"):
         mallocs = pa.calls("_cbor_malloc")
         if not mallocs:
             # refused before allocating: what does the path know about size?
+            eq, lo, hi, exc = _size_facts(st, S)
             if S is None:
                 refuse_limit.append(("all", None))
-            elif S in st.eqc:
-                refuse_limit.append(("eq", st.eqc[S]))
+            elif eq is not None:
+                refuse_limit.append(("eq", eq))
             else:
-                refuse_limit.append(("range", (st.lo.get(S, 0), st.hi.get(S, (1 << 64) - 1))))
+                refuse_limit.append(("range", (lo, hi)))
             ok = pa.ret == ("c", 0) and not [e for e in pa.events if e.kind == "store"]
             chk.ob(rule, "%s: refusal returns NULL and changes nothing" % label, ok, where, fn=f.name, key="refuse-clean:" + label)
         else:
@@ -60,11 +87,12 @@ def check_gate(chk, prog, eff, L, label, rule="C19.gate"):
         can_be_L = True
         st = pa.st
         if S is not None:
-            if S in st.eqc:
-                can_be_L = st.eqc[S] == L
-            elif L in st.nec.get(S, ()):
+            eq, lo, hi, exc = _size_facts(st, S)
+            if eq is not None:
+                can_be_L = eq == L
+            elif L in exc:
                 can_be_L = False
-            elif not (st.lo.get(S, 0) <= L <= st.hi.get(S, (1 << 64) - 1)):
+            elif not (lo <= L <= hi):
                 can_be_L = False
         chk.ob(rule, "%s: no allocation path with size == L" % label, not can_be_L, where, fn=f.name, key="proceed:" + label,
                detail="" if not can_be_L else "a frame can be pushed when the stack already holds %d" % L)
